@@ -394,6 +394,10 @@ impl World {
     pub fn logf(&mut self, f: impl FnOnce() -> String) {
         if self.log_on {
             let s = f();
+            if std::env::var_os("VERIF_LOG_STDERR").is_some() {
+                // (debugging aid: survives a panic inside the code under test)
+                eprintln!("t={} {}", fmt_t(self.now), s);
+            }
             self.log.push(format!("t={} {}", fmt_t(self.now), s));
         }
     }
@@ -864,8 +868,14 @@ impl World {
                             connected_at: None,
                             hs_data_at: None,
                         });
-                        if peer != NO_INC && (peer as usize) < self.conns.len() && self.conns[peer as usize].peer == NO_INC && self.dgrams[dgram as usize].genuine {
-                            self.conns[peer as usize].peer = inc;
+                        if peer != NO_INC && (peer as usize) < self.conns.len() && self.dgrams[dgram as usize].genuine {
+                            let old = self.conns[peer as usize].peer;
+                            // (a client whose first server connection was closed and forgotten
+                            // before any of its packets arrived completes the handshake with the
+                            // connection its retransmitted Initial creates)
+                            if old == NO_INC || ((old as usize) < self.conns.len() - 1 && self.conns[old as usize].drained_handled && self.conns[peer as usize].conn.is_handshaking()) {
+                                self.conns[peer as usize].peer = inc;
+                            }
                         }
                         if self.drv.track_frame_rx {
                             let after = frame_stats_vec(&self.conns[inc as usize].conn.stats().frame_rx);
